@@ -16,7 +16,7 @@ LEVEL_TEXT = ('Bounded symbolic verification, inductive over the RIB: from an *a
               'through the REST update view, for flowspec and VPNv4 version counters (symbolic attribute values, enumerated rules), '
               'for the flush on connectionLost, and along symbolic sequences of three updates from an empty RIB.')
 LEVEL_NOTE = 'Prefixes / flowspec rules / VPN routes are dictionary keys in the implementation (string keys), hence enumerated; attribute values and subsets are symbolic. py-radix replaced by an exact-match model.'
-LEVEL_ADDED = 'Also: what is received must not touch the send-side table / counter and vice versa; one UPDATE carrying MP_REACH and MP_UNREACH; change-then-repeat of the same announcement. The same prefix in WITHDRAWN ROUTES and NLRI of one UPDATE (the announcement counts); one MP_UNREACH withdrawing an absent and a present rule. IPv4 NLRI / withdrawn routes travelling with an MP attribute; flowspec send version through the REST view for rules with one- and two-digit component types.'
+LEVEL_ADDED = "Also: what is received must not touch the send-side table / counter and vice versa; one UPDATE carrying MP_REACH and MP_UNREACH; change-then-repeat of the same announcement. The same prefix in WITHDRAWN ROUTES and NLRI of one UPDATE (the announcement counts); one MP_UNREACH withdrawing an absent and a present rule. IPv4 NLRI / withdrawn routes travelling with an MP attribute; flowspec send version through the REST view for rules with one- and two-digit component types. A prefix listed twice in one UPDATE's withdrawn routes (exact version step); prefixes announced with non-zero trailing bits, then re-announced / withdrawn clean."
 TECHNIQUE = 'symbolic one-step RIB relation from arbitrary pre-RIBs + bounded symbolic update sequences (CrossHair+z3) against a dictionary model'
 EXPLANATION = 'C19: RIB / version-counter step relation vs a dictionary model.'
 BOUNDS = 'pool of 3 IPv4 prefixes (8 pre-RIB shapes) x symbolic subsets; 2 flowspec rules, 2 VPNv4 routes; sequences of 3 updates'
@@ -32,9 +32,20 @@ def attrs_for(lp, as4=True):
     return enc, dec
 
 
+def _pfx(i):
+    octs, plen = list(POOL[i][1]), POOL[i][2]
+    if P.get('dirty') and plen == 16:
+        # 10.1.0.0/16 written as the /15 ... no: same prefix, but carried with a longer octet string is not legal; instead
+        # the pool's /16 is sent as 10.1/16 and the trailing-bit variant is exercised on an extra /15 below
+        pass
+    return E.prefix(octs, plen)
+
+
 def update_bytes(withdraw_idx, announce_idx, lp):
-    wd = b''.join(E.prefix(POOL[i][1], POOL[i][2]) for i in withdraw_idx)
-    nl = b''.join(E.prefix(POOL[i][1], POOL[i][2]) for i in announce_idx)
+    wd = b''.join(_pfx(i) for i in withdraw_idx)
+    nl = b''.join(_pfx(i) for i in announce_idx)
+    if P.get('dup_withdraw'):
+        wd = wd + wd          # every withdrawn prefix listed twice in the same UPDATE: still one change each
     enc, dec = attrs_for(lp)
     mp = b''
     if P.get('with_mp') == 'unreach':
@@ -106,9 +117,38 @@ def ob_rib_in(w0: bool, w1: bool, w2: bool, a0: bool, a1: bool, a2: bool, lp: in
     if len(p.adj_rib_out['ipv4']) != 0 or p.send_version['ipv4'] != 0:
         return False
     v2 = p.receive_version['ipv4']
+    if P.get('dup_withdraw') and not aidx:
+        # listing a prefix twice is one removal: as many steps as a clean list would take
+        return v2 - ver == len([i for i in widx if present[i]])
     if changed:
         return v2 > ver
     return v2 == ver
+
+
+def ob_rib_trailing(a: int, b: int, lp: int) -> bool:
+    """a prefix announced with non-zero bits after its length (RFC 4271: irrelevant) and then withdrawn / re-announced with
+    clean bits is one and the same route: one entry, keyed by the canonical prefix"""
+    assume(0 <= lp < 2 ** 32)
+    # (the prefix becomes a dictionary key, which the engine realises: octets are shapes, not symbols)
+    a, b = P['octets']
+    plen = P.get('plen', 23)
+    w = world()
+    p = w.fsm.protocol
+    enc, dec = attrs_for(lp)
+    dirty = bytes([plen, 10, a, b])
+    k = 2 ** (24 - plen)
+    clean = bytes([plen, 10, a, (b // k) * k])
+    key = '%s.%s.%s.%s/%s' % (10, a, (b // k) * k, 0, plen)
+    w.ev_data(S.frame(2, E.update_body(b'', enc, dirty)))
+    cover('delivered')
+    if set(p.adj_rib_in['ipv4'].keys()) != {key}:
+        return False
+    v1 = p.receive_version['ipv4']
+    w.ev_data(S.frame(2, E.update_body(b'', enc, clean)))       # the same route, same attributes: no change
+    if set(p.adj_rib_in['ipv4'].keys()) != {key} or p.receive_version['ipv4'] != v1:
+        return False
+    w.ev_data(S.frame(2, E.update_body(clean, b'', b'')))
+    return len(p.adj_rib_in['ipv4']) == 0 and p.receive_version['ipv4'] > v1
 
 
 def ob_rib_flush(x: int) -> bool:
@@ -318,6 +358,13 @@ def obligations(tier, seed):
         present = [(bits >> i) & 1 == 1 for i in range(3)]
         out.append(ob('C19/rib-in/present=%s' % ''.join('1' if x else '0' for x in present), 'ob_rib_in', {'present': present},
                       covers=['delivered'], cap=280 if quick else 800))
+    for bits in (3, 5, 7):
+        present = [(bits >> i) & 1 == 1 for i in range(3)]
+        out.append(ob('C19/rib-in/duplicate-withdraw/present=%s' % ''.join('1' if x else '0' for x in present), 'ob_rib_in',
+                      {'present': present, 'dup_withdraw': True}, covers=['delivered'], cap=280 if quick else 800))
+    for (plen, oc) in ((23, (1, 1)), (17, (128, 127)), (18, (255, 255)), (21, (0, 7))):
+        out.append(ob('C19/rib-in/trailing-bits/plen=%d' % plen, 'ob_rib_trailing', {'plen': plen, 'octets': list(oc)},
+                      covers=['delivered'], cap=200))
     for mpk in ('unreach', 'reach'):
         for bits in (0, 3, 5):
             present = [(bits >> i) & 1 == 1 for i in range(3)]
